@@ -1,6 +1,7 @@
 import Pcore.Proofs.JsonRead
 import Pcore.Generated.JsonTable
 import Pcore.Generated.PbArms
+import Pcore.Proofs.SerWf
 /-!
 # C11 — JSON and protobuf transports carry Data exactly
 
@@ -23,6 +24,14 @@ Full statement / proved / missing
 * `C11_pb_arms_ok` — the arm table regenerated from `proto/convert.go` satisfies `PBArmsOK` (by `decide`).
 * `C11_pb_value`, `C11_pb_stream`, `C11_pb_events` — protobuf round trips for ANY arm table satisfying `PBArmsOK`;
                      `C11_impl_pb` instantiates them on the regenerated table.
+* `C11_serializer_output_valid` (audit addition) — the property's first sentence with its own quantifier: for EVERY value, option
+                     combination and string threshold, what the C10 serializer model emits for the JSON streamer's capabilities
+                     (no binary, no complex keys), streamed through the table-driven writer, is in the grammar `JVal`; the
+                     hypothesis `WF` of `C11_valid` is discharged by C10's stream law (`C11_wf_of_serializer_stream`).
+                     Reading back needs `NoPref` and is NOT claimed for every serializer output (the known finding).
+* read with care (audit): the protobuf model is the in-memory `datapb` tree (a copy of the value with one constructor per
+                     kind), not the wire encoding; `C11_pb_value` therefore says "both type switches have an arm for every
+                     Data kind and recurse" — close to a restatement, its content is the regenerated arm table.
 * missing: bytes ↔ tokens (encoding/json tokenizer, string escaping, number text) — trusted, exercised by the
   correspondence run which re-tokenizes the emitted bytes (DESIGN.md §5).
 -/
@@ -61,6 +70,16 @@ theorem C11_pref_collision :
     have h : read (write jsonTbl (.hsh [.sc (.str "__pref"), .sc (.int 1)])) = some (.ref 1) := by rfl
     rw [h]; intro h'; cases h'⟩
 
+/-- the FULL statement of the read-back law (no exclusion of the reserved key): `C11_read_write` is the partial theorem
+    (hypothesis `NoPref`), although its name does not end in `_partial` -/
+def C11_read_write_full : Prop := ∀ e : Ev, WF e = true → read (write jsonTbl e) = some e
+
+/-- … refuted (known finding C11-reserved-pref-key) -/
+theorem C11_read_write_full_fails : ¬ C11_read_write_full := by
+  intro h
+  obtain ⟨e, hw, hne⟩ := C11_pref_collision
+  exact hne (h e hw)
+
 /-- the table before the fix "JSON streamer lost the array state after a nested hash at a non-first position":
     the side condition is refuted and the model reproduces the invalid output `[1,{"a":1},2:3]` -/
 def tblBefore : Tbl := { jsonTbl with arms := [
@@ -71,6 +90,108 @@ example : tblOKb tblBefore = false := by decide
 example : write tblBefore (.arr [.sc (.int 1), .hsh [.sc (.str "a"), .sc (.int 1)], .sc (.int 2), .sc (.int 3)]) =
     [.lb, .sc (.int 1), .comma, .lc, .sc (.str "a"), .colon, .sc (.int 1), .rc, .comma, .sc (.int 2), .colon,
      .sc (.int 3), .rb] := by decide
+
+/-- the hypothesis `WF` is needed: a hash with a non-string key / an odd number of children is written as something the
+    reader rejects -/
+example : write jsonTbl (.hsh [.sc (.int 1), .sc (.int 2)]) = [.lc, .sc (.int 1), .colon, .sc (.int 2), .rc] ∧
+    read (write jsonTbl (.hsh [.sc (.int 1), .sc (.int 2)])) = none ∧
+    read (write jsonTbl (.hsh [.sc (.str "a")])) = none := ⟨by decide, by rfl, by rfl⟩
+
+/-- … and is not in the grammar: `JVal` does reject something -/
+example : ¬ JVal (write jsonTbl (.hsh [.sc (.int 1), .sc (.int 2)])) := by
+  have hw : write jsonTbl (.hsh [.sc (.int 1), .sc (.int 2)]) = [.lc, .sc (.int 1), .colon, .sc (.int 2), .rc] := by decide
+  rw [hw]
+  intro h
+  generalize hl : [Tok.lc, .sc (.int 1), .colon, .sc (.int 2), .rc] = l at h
+  cases h with
+  | sc s => simp at hl
+  | arr0 => simp at hl
+  | arr _ => simp at hl
+  | obj0 => simp at hl
+  | obj hm =>
+    rename_i ts
+    have h1 : [Tok.sc (.int 1), .colon, .sc (.int 2)] ++ [Tok.rc] = ts ++ [Tok.rc] := by simpa using hl
+    have h2 := List.append_inj_left' h1 rfl
+    subst h2
+    generalize hl2 : [Tok.sc (.int 1), .colon, .sc (.int 2)] = m at hm
+    cases hm <;> simp at hl2
+
+/-! ### audit addition: "any serializer output" — the hypothesis `WF` of `C11_valid` is what the serializer model of C10
+    emits for the JSON streamer's capabilities (CanDoBinary = false, CanDoComplexKeys = false) -/
+
+/-- a scalar of the serializer's stream as the JSON transport's scalar (Binary never reaches a consumer without binary
+    support — hypothesis `nb` below; it is mapped to `null` only to keep the function total) -/
+def ofSerSc : Pcore.Ser.Sc → Sc
+  | .undef => .null | .bool b => .bool b | .int i => .int i | .flt f => .flt f | .str s => .str s | .bin _ => .null
+
+mutual
+def ofSer : Pcore.Ser.Ev → Ev
+  | .add d => .sc (ofSerSc d)
+  | .ref n => .ref n
+  | .arr es => .arr (ofSers es)
+  | .hsh es => .hsh (ofSers es)
+def ofSers : List Pcore.Ser.Ev → List Ev
+  | [] => []
+  | e :: es => ofSer e :: ofSers es
+end
+
+theorem isStrKey_ofSer (k : Pcore.Ser.Ev) (h : k.isStr = true) : isStrKey (ofSer k) = true := by
+  cases k with
+  | add d => cases d <;> simp_all [Pcore.Ser.Ev.isStr, ofSer, ofSerSc, isStrKey]
+  | _ => simp [Pcore.Ser.Ev.isStr] at h
+
+mutual
+theorem wf_ofSer : ∀ e : Pcore.Ser.Ev, e.wf true true = true → WF (ofSer e) = true
+  | .add _, _ => by simp [ofSer, WF]
+  | .ref _, _ => by simp [ofSer, WF]
+  | .arr es, h => by
+      simp only [Pcore.Ser.Ev.wf] at h
+      simpa [ofSer, WF] using wfs_ofSers es h
+  | .hsh es, h => by
+      simp only [Pcore.Ser.Ev.wf, Bool.and_eq_true] at h
+      simpa [ofSer, WF] using wfkv_ofSers es h.1 h.2
+theorem wfs_ofSers : ∀ es : List Pcore.Ser.Ev, Pcore.Ser.wfList true true es = true → WFs (ofSers es) = true
+  | [], _ => by simp [ofSers, WFs]
+  | e :: es, h => by
+      simp only [Pcore.Ser.wfList, Bool.and_eq_true] at h
+      simp [ofSers, WFs, wf_ofSer e h.1, wfs_ofSers es h.2]
+theorem wfkv_ofSers : ∀ es : List Pcore.Ser.Ev, Pcore.Ser.hkeys true es = true → Pcore.Ser.wfList true true es = true →
+    WFkv (ofSers es) = true
+  | [], _, _ => by simp [ofSers, WFkv]
+  | [_], h, _ => by simp [Pcore.Ser.hkeys] at h
+  | k :: v :: es, h, hw => by
+      simp only [Pcore.Ser.hkeys, Bool.and_eq_true, Bool.not_true, Bool.false_or] at h
+      simp only [Pcore.Ser.wfList, Bool.and_eq_true] at hw
+      simp [ofSers, WFkv, isStrKey_ofSer k h.1, wf_ofSer v hw.2.1, wfkv_ofSers es h.2 hw.2.2]
+end
+
+/-- the stream laws of C10 for a consumer without binary and complex-key support give `WF` -/
+theorem C11_wf_of_serializer_stream (e : Pcore.Ser.Ev) (h : e.wf true true = true) : WF (ofSer e) = true := wf_ofSer e h
+
+/-- the property's first sentence with its own quantifier: streaming ANY serializer output (any value, any options, any
+    string threshold) through the JSON streamer writes syntactically valid JSON -/
+theorem C11_serializer_output_valid (o : Pcore.Ser.Opts) (thr : Nat) (v : Pcore.Ser.V) :
+    JVal (write jsonTbl (ofSer (Pcore.Ser.serialize o ⟨false, false, thr⟩ v))) := by
+  apply C11_impl_valid
+  apply wf_ofSer
+  exact (Pcore.Ser.toData_good (Pcore.Ser.mkCfg o ⟨false, false, thr⟩) true true
+    (fun _ => by
+      refine ⟨by simp [Pcore.Ser.mkCfg], ?_⟩
+      simp only [Pcore.Ser.mkCfg, and_true]
+      split <;> split <;> omega)
+    (fun _ => by simp [Pcore.Ser.mkCfg]) 1 v Pcore.Ser.St.init).1
+
+/-- non-vacuity / what it says: a value with a Sensitive Binary under a non-string key, used twice -/
+def serSample : Pcore.Ser.V :=
+  .arr 1 [.hash 2 [(.int 1, .sens 3 (.bin 4 [1, 2, 3]))], .hash 2 [(.int 1, .sens 3 (.bin 4 [1, 2, 3]))]]
+example : write jsonTbl (ofSer (Pcore.Ser.serialize ⟨true, true, 2⟩ ⟨false, false, 20⟩ serSample)) =
+    [.lb, .lc, .sc (.str "__ptype"), .colon, .sc (.str "Hash"), .comma, .sc (.str "__pvalue"), .colon,
+       .lb, .sc (.int 1), .comma,
+         .lc, .sc (.str "__ptype"), .colon, .sc (.str "Sensitive"), .comma, .sc (.str "__pvalue"), .colon,
+           .lc, .sc (.str "__ptype"), .colon, .sc (.str "Binary"), .comma, .sc (.str "__pvalue"), .colon, .sc (.str "AQID"), .rc,
+         .rc,
+       .rb, .rc, .comma,
+     .lc, .sc (.str "__pref"), .colon, .sc (.int 1), .rc, .rb] := by decide
 
 /-! ### protobuf -/
 
@@ -184,5 +305,21 @@ theorem C11_impl_pb (v : DVal) (h : NoBin v = true) :
   ⟨C11_pb_value _ C11_pb_arms_ok v h, C11_pb_events _ C11_pb_arms_ok v h⟩
 
 example : NoBin (.hsh [(.str "a", .arr [.int 1, .flt 0, .undef])]) = true := by decide
+
+/-! ### audit additions (protobuf): the hypotheses are needed, the side condition is not idle -/
+
+/-- the hypothesis `NoBin` is needed on the current tree: `FromPBData` has no Binary arm -/
+example : (match fromPB pbArms (toPB pbArms (.bin [1, 2, 3])) with | .undef => true | _ => false) = true := by rfl
+
+/-- an arm table that lacks the Float arm of `FromPBData` is refuted by the side condition, and the model driven by it
+    loses the float -/
+def pbArmsNoFlt : PBArms := { pbArms with fromPB := [.bool, .int, .str, .undef, .arr, .hsh] }
+example : PBArmsOK pbArmsNoFlt = false := by decide
+example : (match fromPB pbArmsNoFlt (toPB pbArmsNoFlt (.arr [.flt 0])) with | .arr [.undef] => true | _ => false) = true := by rfl
+/-- … and the protobuf theorems say something about a concrete value: nested, float, int, undef, non-string key -/
+def pbSample : DVal := .hsh [(.str "a", .arr [.int 1, .flt 4607182418800017408, .undef]), (.int 2, .hsh [])]
+example : NoBin pbSample = true := by decide
+example : (match toPB pbArms pbSample with
+    | .hsh [(.str "a", .arr [.int 1, .flt 4607182418800017408, .undef]), (.int 2, .hsh [])] => true | _ => false) = true := by rfl
 
 end Pcore.Json
